@@ -40,12 +40,9 @@ def between_lines(rng, knobs):
         r = rng.random()
         if r < 0.35:
             out.append(rng.choice("Cc*!") + rng.choice(COMMENT_LINES))
-        elif r < 0.45:
-            # a comment line whose '!' stands in columns 2-5
-            out.append(" " * rng.choice([1, 2, 3, 4]) + "!" + rng.choice(COMMENT_LINES))
-        elif r < 0.45 + knobs.get("p_region2", 0.03):
-            # the open finding: a comment line whose '!' stands in column 7 or beyond
-            out.append(" " * rng.choice([6, 6, 7, 10, 30, 71, 75]) + "!" + rng.choice(COMMENT_LINES))
+        elif r < 0.55:
+            # a comment line whose first non-blank character is a '!' in any column but column 6
+            out.append(" " * rng.choice([1, 2, 3, 4, 6, 6, 7, 10, 30, 71, 72, 75]) + "!" + rng.choice(COMMENT_LINES))
         else:
             out.append(blank_line(rng))
     return out
@@ -149,7 +146,7 @@ def render_fixed(rng, label, pieces, knobs):
         if not last:
             bl = between_lines(rng, knobs)
             if any(b.strip().startswith("!") and len(b) - len(b.lstrip()) >= 6 for b in bl):
-                regions.add("indented_comment")
+                shapes.add("comment_at_column_7_or_beyond_before_continuation")
             if any(not b.strip() and len(b) >= 6 for b in bl):
                 shapes.add("wide_blank_before_continuation")
             if sum(1 for b in bl if not b.strip()) >= 2:
